@@ -79,6 +79,7 @@ class Deployment:
         self.joker = self.make_joker(self.pool, self.rng)
         self.history = []
         self.helpers = {}
+        self._alias_holder = {}
         self.current_op = None
         self.inmem_batches = []
         self._restore = []
@@ -158,6 +159,15 @@ class Deployment:
     def source(self, op):
         lib = self.world.libraries[op.get("lib", 0)]
         if op.get("source", "object") == "file":
+            if op.get("alias"):
+                # the user keeps ONE file name and regenerates its content (other library, other
+                # units): evaluation must reflect what the file holds now
+                path = os.path.join(self.world.userdir, "%s.hdf5" % op["alias"])
+                if self._alias_holder.get(op["alias"]) != op.get("lib", 0):
+                    lib.samples.write(path, overwrite=True)
+                    self._alias_holder[op["alias"]] = op.get("lib", 0)
+                    self.log.add("file-write", "alias:%s" % op["alias"], {"lib": op.get("lib", 0)})
+                return path
             return self.world.library_file(op.get("lib", 0))
         return lib.samples
 
